@@ -299,6 +299,7 @@ def main():
     tier = a.tier if a.tier in ("quick", "thorough") else "quick"
     seed = int(os.environ.get("VERIF_SEED", "1" if tier == "quick" else "2"))
     t_start = time.time()
+    os.environ["VERIF_TIER"] = tier
     os.makedirs(SCRATCH, exist_ok=True)
     os.makedirs(REPLAYS, exist_ok=True)
     os.makedirs(EVID, exist_ok=True)
